@@ -1,5 +1,5 @@
 """C24 — layer-1 check (see DESIGN §8)."""
-import hsm_corr
+import hsm_corr, factory_corr
 
 
 def explore(run, lean):
@@ -7,13 +7,21 @@ def explore(run, lean):
     hsm_corr.explore(run, "C24", 1500 if quick else 20000, hosts=("plain", "instr", "queued"),
                      malformed_rate=0.6, exhaustive_n=(0 if quick else 0))
     hsm_corr.explore_fallthrough(run, 300 if quick else 6000)
+    # charts assembled from template state functions whose registered callback returns no status
+    run.factory_key = "C24"
+    factory_corr.explore(run, 80 if quick else 2000, none_rate=0.8)
     run.extra["rule"] = ("(a) corpus witnesses first, then random charts (1-14 states, 40% deep chains, multi-level initial "
                          "transitions, per-state HANDLED/fall-through flags) with scripts of start_at + 1-6 ops on plain / "
                          "instrumented / queued hosts; thorough tier adds all trees with <=5 states x all (cur,S,T) x all single "
                          "init assignments; non-trivial = the script reaches the property's mechanism (see histogram); "
                          "distinct by canonical JSON; (b) charts with one handler that returns no status for every signal it has no clause for "
                          "(parent search included): every op ends normally or with HsmTopologyException within 3000 handler calls")
+    ROUND6_RULE = '; template charts whose registered callback returns no status'
+    run.extra["rule"] += ROUND6_RULE
 
 
 def replay(case):
+    cc = case.get("case", case)
+    if "regs" in cc:
+        return factory_corr.replay(case)
     return hsm_corr.replay(case)
